@@ -98,16 +98,28 @@ theorem parseSplit_total (fix : Bool) (parsed : SplitResult) (pl : Option Str) (
 
 /-! ## what a returned record looks like -/
 
-/-- the module's own well-formedness of a record; with `fix_common_mistakes` the ids are
-exactly 11 characters long (without it `$` lets one final `"\n"` through); a channel name is
-non-empty, does not start with `@` and is not a reserved word -/
-def Valid (fix : Bool) : Record → Prop
-  | .video id _ => is_youtube_video_id id = true ∧ (fix = true → id.length = 11)
-  | .short id => is_youtube_video_id id = true ∧ (fix = true → id.length = 11)
+/-- the module's own well-formedness of a record: a video / short id satisfies
+`is_youtube_video_id` **and is exactly 11 characters long, whatever `fix_common_mistakes`** (the
+validator's `$` would let one final `"\n"` through, but TAB / CR / LF are removed from the url
+before anything is cut out of it); a user name is non-empty; a channel has a non-empty id, or a
+name that is non-empty, does not start with `@` and is not a reserved word.  (Channel ids are
+*not* checked against `is_youtube_channel_id`: the code does not validate them either.) -/
+def Valid : Record → Prop
+  | .video id _ => is_youtube_video_id id = true ∧ id.length = 11
+  | .short id => is_youtube_video_id id = true ∧ id.length = 11
   | .user name => name ≠ []
   | .channel (some cid) none => cid ≠ []
   | .channel none (some name) => name ≠ [] ∧ (∀ r, name ≠ '@' :: r) ∧ name ∉ blacklist
   | .channel _ _ => False
+
+/-- no TAB, CR, LF: what `UNSAFE_URL_CHARS_RE.sub("", url)` and `urlsplit` leave -/
+def Safe (s : Str) : Prop := ∀ c ∈ s, isUnsafeUrlChar c = false
+
+theorem safe_of_subset (s u : Str) (h : ∀ c ∈ s, c ∈ u) (hu : Safe u) : Safe s :=
+  fun c hc => hu c (h c hc)
+
+theorem safe_of_infix (s u : Str) (h : s <:+: u) (hu : Safe u) : Safe s :=
+  safe_of_subset s u (fun _ hc => h.subset hc) hu
 
 theorem idClassN_length (n : Nat) (s : Str) (h : idClassN n s = true) : n ≤ s.length := by
   unfold idClassN at h
@@ -116,23 +128,122 @@ theorem idClassN_length (n : Nat) (s : Str) (h : idClassN n s = true) : n ≤ s.
   rw [List.length_take] at this
   omega
 
-theorem truncate_valid_length (fix : Bool) (v : Str) (h : is_youtube_video_id (truncate fix v) = true) :
-    fix = true → (truncate fix v).length = 11 := by
-  intro hf
-  have h1 := idClassN_length 11 _ h
-  subst hf
-  simp only [truncate, if_true] at h1 ⊢
-  rw [List.length_take] at h1 ⊢
-  omega
+/-- without a `"\n"` in it, a string the validator accepts has exactly the length of the class
+repetition (`$` matches only at the very end) -/
+theorem idClassN_length_eq (n : Nat) (s : Str) (h : idClassN n s = true) (hs : Safe s) :
+    s.length = n := by
+  have h1 := idClassN_length n s h
+  unfold idClassN at h
+  simp only [Bool.and_eq_true, Bool.or_eq_true, decide_eq_true_eq] at h
+  rcases h.2 with e | e
+  · have := List.drop_eq_nil_iff.mp e
+    omega
+  · exfalso
+    have hm : '\n' ∈ s := List.mem_of_mem_drop (by rw [e]; simp)
+    have := hs _ hm
+    revert this; decide
 
-theorem videoOf_valid (fix : Bool) (v : Str) (pl : Option Str) (r : Record)
-    (h : videoOf fix v pl = some r) : Valid fix r ∧ ∃ id, r = .video id pl := by
+theorem truncate_safe (fix : Bool) (v : Str) (hs : Safe v) : Safe (truncate fix v) := by
+  unfold truncate
+  split
+  · exact safe_of_subset _ _ (fun _ hc => List.mem_of_mem_take hc) hs
+  · exact hs
+
+theorem truncate_valid_length (fix : Bool) (v : Str) (hs : Safe v)
+    (h : is_youtube_video_id (truncate fix v) = true) : (truncate fix v).length = 11 :=
+  idClassN_length_eq 11 _ h (truncate_safe fix v hs)
+
+/-- an id of exactly 11 characters is left alone by `v[:11]` -/
+theorem truncate_eq_self (fix : Bool) (id : Str) (hl : id.length = 11) : truncate fix id = id := by
+  unfold truncate
+  split
+  · exact List.take_of_length_le (by omega)
+  · rfl
+
+theorem videoOf_shape (fix : Bool) (v : Str) (pl : Option Str) (r : Record)
+    (h : videoOf fix v pl = some r) : ∃ id, r = .video id pl := by
+  unfold videoOf at h
+  split at h
+  · simp at h; subst h; exact ⟨_, rfl⟩
+  · simp at h
+
+theorem videoOf_valid (fix : Bool) (v : Str) (pl : Option Str) (r : Record) (hs : Safe v)
+    (h : videoOf fix v pl = some r) : Valid r := by
   unfold videoOf at h
   split at h
   · rename_i hv
     simp at h; subst h
-    exact ⟨⟨hv, truncate_valid_length fix v hv⟩, _, rfl⟩
+    exact ⟨hv, truncate_valid_length fix v hs hv⟩
   · simp at h
+
+/-! ### what a value search returns -/
+
+theorem litValueSearch_some (lit stops : List Char) (s v : Str) (h : litValueSearch lit stops s = some v) :
+    v ≠ [] ∧ ∀ c ∈ v, c ∉ stops := by
+  induction s with
+  | nil => simp [litValueSearch] at h
+  | cons c cs ih =>
+    simp only [litValueSearch] at h
+    cases hh : litValueHere lit stops (c :: cs) with
+    | none => rw [hh] at h; exact ih h
+    | some w =>
+      rw [hh] at h
+      simp only [Option.some.injEq] at h
+      subst h
+      unfold litValueHere at hh
+      split at hh
+      · split at hh
+        · rename_i hne
+          simp only [Option.some.injEq] at hh
+          subst hh
+          refine ⟨hne, ?_⟩
+          intro d hd
+          have := mem_takeWhile_s20 _ _ d hd
+          simpa using this
+        · simp at hh
+      · simp at hh
+
+/-- the value found is a piece of the subject -/
+theorem litValueSearch_infix (lit stops : List Char) (s v : Str) (h : litValueSearch lit stops s = some v) :
+    v <:+: s := by
+  induction s with
+  | nil => simp [litValueSearch] at h
+  | cons c cs ih =>
+    simp only [litValueSearch] at h
+    cases hh : litValueHere lit stops (c :: cs) with
+    | none => rw [hh] at h; exact (ih h).trans (List.suffix_cons _ _).isInfix
+    | some w =>
+      rw [hh] at h
+      simp only [Option.some.injEq] at h
+      subst h
+      unfold litValueHere at hh
+      cases hm : matchLit lit (c :: cs) with
+      | none => rw [hm] at hh; simp at hh
+      | some r =>
+        rw [hm] at hh
+        simp only [] at hh
+        split at hh
+        · simp only [Option.some.injEq] at hh
+          subst hh
+          obtain ⟨pre, hpre, _⟩ := matchLit_spec lit _ r hm
+          unfold valueRun
+          exact (List.takeWhile_prefix _).isInfix.trans (List.IsSuffix.isInfix ⟨pre, hpre.symm⟩)
+        · simp at hh
+
+/-- the id a continuation pattern (`NEXT_V_RE`, `NESTED_NEXT_V_RE`) hands out is a piece of the url -/
+theorem continuation_infix (u v : Str) (h : (nextV u).or (nestedNextV u) = some v) : v <:+: u := by
+  cases h1 : nextV u with
+  | some w =>
+    rw [h1] at h
+    have e : w = v := by simpa using h
+    exact e ▸ litValueSearch_infix _ _ _ _ h1
+  | none =>
+    rw [h1] at h
+    have e : nestedNextV u = some v := by simpa using h
+    exact litValueSearch_infix _ _ _ _ e
+
+theorem safe_of_pathsplit (path x : Str) (hp : Safe path) (hx : x ∈ pathsplit path) : Safe x :=
+  safe_of_subset x path (pathsplit_mem path x hx).2 hp
 
 theorem lstripChars_not_head (s : Str) (c : Char) (r : Str) : lstripChars s [c] ≠ c :: r := by
   intro h
@@ -158,8 +269,8 @@ theorem name_valid (x : Str) (h : ¬ ((cutAmp (lstripChars x ['@']) = [] || blac
   simp only [Bool.or_eq_true, decide_eq_true_eq, List.contains_eq_mem, not_or] at h
   exact ⟨h.1, cutAmp_not_head _ _ (fun r => lstripChars_not_head _ _ r), by simpa using h.2⟩
 
-theorem routeName_valid (fix : Bool) (path : Str) (r : Record) (h : routeName path = some r) :
-    Valid fix r := by
+theorem routeName_valid (path : Str) (r : Record) (h : routeName path = some r) :
+    Valid r := by
   unfold routeName at h
   simp only [] at h
   split at h
@@ -171,17 +282,22 @@ theorem routeName_valid (fix : Bool) (path : Str) (r : Record) (h : routeName pa
   · simp at h
 
 theorem routePath_valid (fix : Bool) (path query : Str) (pl : Option Str) (r : Record)
-    (h : routePath fix path query pl = .ok (some r)) : Valid fix r := by
+    (hp : Safe path) (hq : Safe query)
+    (h : routePath fix path query pl = .ok (some r)) : Valid r := by
   unfold routePath at h
   split at h
   · split at h
-    · simp at h; exact (videoOf_valid fix _ pl r h).1
+    · rename_i v hv
+      simp at h
+      exact videoOf_valid fix _ pl r (safe_of_infix _ _ (litValueSearch_infix _ _ _ _ hv) hq) h
     · simp at h
   · split at h
     · unfold routeVideoFile at h
       split at h
       · simp at h
-      · simp at h; exact (videoOf_valid fix _ pl r h).1
+      · rename_i v hv
+        simp at h
+        exact videoOf_valid fix _ pl r (safe_of_pathsplit path v hp (List.mem_of_getLast? hv)) h
     · split at h
       · unfold routeUser at h
         rcases second_cases path with h2 | ⟨x, h2, _⟩ <;> rw [h2] at h <;> simp at h
@@ -204,10 +320,10 @@ theorem routePath_valid (fix : Bool) (path query : Str) (pl : Option Str) (r : R
             exact hx
           · split at h
             · unfold routeShorts at h
-              rcases second_cases path with h2 | ⟨x, h2, _⟩ <;> rw [h2] at h <;> simp at h
+              rcases second_cases path with h2 | ⟨x, h2, hxm⟩ <;> rw [h2] at h <;> simp at h
               obtain ⟨hx, rfl⟩ := h
-              exact ⟨hx, truncate_valid_length fix x hx⟩
-            · simp at h; exact routeName_valid fix path r h
+              exact ⟨hx, truncate_valid_length fix x (safe_of_pathsplit path x hp hxm) hx⟩
+            · simp at h; exact routeName_valid path r h
 
 theorem fragmentV_length (f v : Str) (h : fragmentV f = some v) : v.length = 11 := by
   unfold fragmentV at h
@@ -221,7 +337,8 @@ theorem fragmentV_length (f v : Str) (h : fragmentV f = some v) : v.length = 11 
   · simp at h
 
 theorem parseSplit_valid (fix : Bool) (parsed : SplitResult) (pl : Option Str) (r : Record)
-    (h : parseSplit fix parsed pl = .ok (some r)) : Valid fix r := by
+    (hp : Safe parsed.path) (hq : Safe parsed.query)
+    (h : parseSplit fix parsed pl = .ok (some r)) : Valid r := by
   unfold parseSplit at h
   split at h
   · unfold routeShortHost at h
@@ -230,7 +347,9 @@ theorem parseSplit_valid (fix : Bool) (parsed : SplitResult) (pl : Option Str) (
       · simp at h
       · split at h
         · simp at h
-        · simp at h; exact (videoOf_valid fix _ pl r h).1
+        · rename_i v hv
+          simp at h
+          exact videoOf_valid fix _ pl r (safe_of_pathsplit _ v hp (List.mem_of_getElem? hv)) h
     · simp at h
   · split at h
     · rename_i v hv
@@ -241,8 +360,113 @@ theorem parseSplit_valid (fix : Bool) (parsed : SplitResult) (pl : Option Str) (
           split at hv
           · exact fragmentV_length _ _ hv
           · simp at hv
-        exact ⟨hvalid, fun _ => hl⟩
+        exact ⟨hvalid, hl⟩
       · simp at h
-    · exact routePath_valid fix _ _ pl r h
+    · exact routePath_valid fix _ _ pl r hp hq h
+
+/-! ## truncated routes parse to `None` -/
+
+theorem second_truncated (path : Str) (h : (pathsplit path).length < 2) : second path = .ok none := by
+  unfold second
+  rw [if_pos h]
+
+/-- `/user/` with fewer than two segments (`youtube.com/user/`, `youtube.com/user//`): `None` -/
+theorem routeUser_truncated (path : Str) (h : (pathsplit path).length < 2) : routeUser path = .ok none := by
+  unfold routeUser
+  rw [second_truncated path h]
+
+/-- `/c/` with fewer than two segments: `None` -/
+theorem routeC_truncated (path : Str) (h : (pathsplit path).length < 2) : routeC path = .ok none := by
+  unfold routeC
+  rw [second_truncated path h]
+
+/-- `/channel/` with fewer than two segments: `None` -/
+theorem routeChannel_truncated (path : Str) (h : (pathsplit path).length < 2) :
+    routeChannel path = .ok none := by
+  unfold routeChannel
+  rw [second_truncated path h]
+
+/-- `/shorts/` with fewer than two segments: `None` -/
+theorem routeShorts_truncated (fix : Bool) (path : Str) (h : (pathsplit path).length < 2) :
+    routeShorts fix path = .ok none := by
+  unfold routeShorts
+  rw [second_truncated path h]
+
+/-- `youtu.be/`, `youtu.be//`, `youtu.be` … : a path without any segment gives `None` -/
+theorem routeShortHost_truncated (fix : Bool) (path : Str) (pl : Option Str) (h : pathsplit path = []) :
+    routeShortHost fix path pl = .ok none := by
+  unfold routeShortHost
+  split
+  · rw [h]; simp
+  · rfl
+
+theorem prefix_getElem? (w path : Str) (h : w <+: path) (k : Nat) (hk : k < w.length) :
+    path[k]? = w[k]? := by
+  obtain ⟨t, rfl⟩ := h
+  exact List.getElem?_append_left hk
+
+theorem startsWith_getElem? (path w : Str) (h : startsWith path w = true) (k : Nat) (hk : k < w.length) :
+    path[k]? = w[k]? := by
+  unfold startsWith at h
+  exact prefix_getElem? w path (List.isPrefixOf_iff_prefix.mp h) k hk
+
+/-- a path is not `/watch` (up to trailing slashes) when its second character is not `w` -/
+theorem not_watch_of_second (path : Str) (c : Char) (h : path[1]? = some c) (hc : c ≠ 'w') :
+    rstripChars path ['/'] ≠ "/watch".toList := by
+  intro e
+  have hpre : rstripChars path ['/'] <+: path := by
+    unfold rstripChars
+    refine ⟨(path.reverse.takeWhile fun c => ['/'].contains c).reverse, ?_⟩
+    rw [← List.reverse_append, List.takeWhile_append_dropWhile, List.reverse_reverse]
+  rw [e] at hpre
+  have := prefix_getElem? _ path hpre 1 (by decide)
+  rw [h] at this
+  have h2 : ("/watch".toList)[1]? = some 'w' := by decide
+  rw [h2] at this
+  exact hc (by simpa using this)
+
+/-- **a truncated two-segment route parses to `None`**: a path that starts with `/user/`, `/c/`,
+`/channel/` or `/shorts/` and has fewer than two segments (`/user/`, `/c//`, `/shorts/ ` …) -/
+theorem routePath_truncated (fix : Bool) (path query : Str) (pl : Option Str)
+    (hr : startsWith path "/user/".toList = true ∨ startsWith path "/c/".toList = true ∨
+      startsWith path "/channel/".toList = true ∨ startsWith path "/shorts/".toList = true)
+    (h : (pathsplit path).length < 2) : routePath fix path query pl = .ok none := by
+  -- the second character of the path: `u`, `c` or `s`
+  obtain ⟨c, hc, hcw, hcv, hce⟩ : ∃ c, path[1]? = some c ∧ c ≠ 'w' ∧ c ≠ 'v' ∧ c ≠ 'e' := by
+    rcases hr with h1 | h1 | h1 | h1
+    · exact ⟨'u', by rw [startsWith_getElem? path _ h1 1 (by decide)]; decide, by decide, by decide, by decide⟩
+    · exact ⟨'c', by rw [startsWith_getElem? path _ h1 1 (by decide)]; decide, by decide, by decide, by decide⟩
+    · exact ⟨'c', by rw [startsWith_getElem? path _ h1 1 (by decide)]; decide, by decide, by decide, by decide⟩
+    · exact ⟨'s', by rw [startsWith_getElem? path _ h1 1 (by decide)]; decide, by decide, by decide, by decide⟩
+  have hno : ∀ w : Str, (∃ d, w[1]? = some d ∧ d ≠ c) → 1 < w.length → startsWith path w = false := by
+    intro w ⟨d, hd, hdc⟩ hl
+    cases hs : startsWith path w with
+    | false => rfl
+    | true =>
+      have := startsWith_getElem? path w hs 1 hl
+      rw [hc, hd] at this
+      exact absurd (by simpa using this.symm) hdc
+  have h1 : startsWith path "/v/".toList = false := hno _ ⟨'v', by decide, fun e => hcv e.symm⟩ (by decide)
+  have h2 : startsWith path "/video/".toList = false := hno _ ⟨'v', by decide, fun e => hcv e.symm⟩ (by decide)
+  have h3 : startsWith path "/embed/".toList = false := hno _ ⟨'e', by decide, fun e => hce e.symm⟩ (by decide)
+  unfold routePath
+  rw [if_neg (not_watch_of_second path c hc hcw), h1, h2, h3]
+  simp only [Bool.or_self, Bool.false_eq_true, if_false]
+  rw [routeUser_truncated path h, routeC_truncated path h, routeChannel_truncated path h,
+    routeShorts_truncated fix path h]
+  rcases hr with h1 | h1 | h1 | h1 <;> simp only [h1, if_true] <;>
+    first
+      | rfl
+      | (split <;> first | rfl | (split <;> first | rfl | (split <;> rfl)))
+
+/-- the `youtu.be` branch on a host that ends with `youtu.be` and a path without segment -/
+theorem parseSplit_short_host_truncated (fix : Bool) (parsed : SplitResult) (pl : Option Str)
+    (hh : (hostnameOf parsed).isSome = true)
+    (he : endsWith (pyHostname parsed.netloc) "youtu.be".toList = true)
+    (h : pathsplit parsed.path = []) : parseSplit fix parsed pl = .ok none := by
+  unfold parseSplit
+  rw [hh, he]
+  simp only [Bool.and_self, if_true]
+  exact routeShortHost_truncated fix _ pl h
 
 end Ural.Youtube
